@@ -157,3 +157,11 @@ def req_meta_bytes(cfg, img, off, ln):
     tables = ln // (cs * n) + 2
     comp = (ln // cs + 2) * (cs + 1024) if cfg["compress"] else 0
     return l1 + tables * cs + comp
+
+
+def meta_model(cfg):
+    cs = 1 << cfg['cluster_bits']
+    n = l2_size(cfg)
+    ncl = (cfg['nsectors'] * 512 + cs - 1) // cs
+    return (cs * n, cs, ((ncl + n - 1) // n + cfg['l1_extra']) * 8)
+    # (guest bytes covered by one second-level table, bytes of one such table, bytes of the top-level table read lazily)
